@@ -870,23 +870,14 @@ Section Cache.
   Lemma d_locations_coherent h : coherent h -> d_locations dir h = locations dir (d_collar h) (d_surveys h).
   Proof. intros [H|H]; unfold d_locations; rewrite H; reflexivity. Qed.
 
-  Lemma dstep_coherent h op : coherent h -> coherent (fst (dstep dir h op)).
+  (* API calls: everything except a successful in-place write into the array the `collar` getter handed out *)
+  Definition d_api (op : dop ang) : Prop := match op with DCollarX false _ => False | _ => True end.
+
+  Lemma dstep_coherent h op : d_api op -> coherent h -> coherent (fst (dstep dir h op)).
   Proof.
-    intros H. destruct op as [c|s|ds|subs]; simpl; try (left; reflexivity).
+    intros Ha H. destruct op as [c|s|ds|subs|[|] x]; simpl; try (left; reflexivity); try exact H; try contradiction.
     - right. simpl. rewrite (d_locations_coherent h H). reflexivity.
     - destruct subs as [|o r]; [exact H|]. right. simpl. rewrite (d_locations_coherent h H). reflexivity.
-  Qed.
-
-  (* a step on a coherent state yields what the cache-free specification yields *)
-  Lemma dstep_spec_eq h op : coherent h ->
-    snd (dstep dir h op) = snd (dstep_spec dir h op)
-    /\ d_collar (fst (dstep dir h op)) = d_collar (fst (dstep_spec dir h op))
-    /\ d_surveys (fst (dstep dir h op)) = d_surveys (fst (dstep_spec dir h op))
-    /\ d_data (fst (dstep dir h op)) = d_data (fst (dstep_spec dir h op)).
-  Proof.
-    intros H. unfold dstep_spec. destruct op as [c|s|ds|subs]; simpl; try (repeat split; reflexivity).
-    - rewrite (d_locations_coherent h H). unfold d_locations. simpl. repeat split; reflexivity.
-    - rewrite (d_locations_coherent h H). unfold d_locations. simpl. repeat split; reflexivity.
   Qed.
 
   (* states that agree on collar, surveys and data and are both coherent behave alike *)
@@ -896,40 +887,40 @@ Section Cache.
   Lemma dstep_same a b op : coherent a -> coherent b -> same_inputs a b ->
     snd (dstep dir a op) = snd (dstep dir b op) /\ same_inputs (fst (dstep dir a op)) (fst (dstep dir b op)).
   Proof.
-    intros Ha Hb [Ec [Es Ed]]. destruct op as [c|s|ds|subs]; simpl.
+    intros Ha Hb [Ec [Es Ed]]. destruct op as [c|s|ds|subs|[|] x]; simpl.
     - split; [reflexivity|]. repeat split; simpl; assumption.
     - split; [reflexivity|]. repeat split; simpl; assumption.
     - rewrite (d_locations_coherent a Ha), (d_locations_coherent b Hb), Ec, Es. split; [reflexivity|].
       repeat split; simpl; assumption.
     - rewrite (d_locations_coherent a Ha), (d_locations_coherent b Hb), Ec, Es, Ed. split; [reflexivity|].
       repeat split; reflexivity.
+    - split; [reflexivity|]. repeat split; assumption.
+    - split; [reflexivity|]. repeat split; simpl; congruence.
   Qed.
 
-  Lemma dstep_spec_coherent h op : coherent (fst (dstep_spec dir h op)).
-  Proof. unfold dstep_spec. apply dstep_coherent. left. reflexivity. Qed.
 
-  Lemma drun_spec_eq : forall ops a b, coherent a -> coherent b -> same_inputs a b ->
+  Lemma drun_spec_eq : forall ops a b, Forall d_api ops -> coherent a -> coherent b -> same_inputs a b ->
     snd (drun dir a ops) = snd (drun_spec dir b ops).
   Proof.
-    induction ops as [|op r IH]; intros a b Ha Hb Hs; [reflexivity|]. simpl.
+    induction ops as [|op r IH]; intros a b Hapi Ha Hb Hs; [reflexivity|]. inversion Hapi as [|? ? Hop Hr]; subst. simpl.
     destruct (dstep dir a op) as [a1 oa] eqn:Ea. destruct (dstep_spec dir b op) as [b1 ob] eqn:Eb.
     assert (Hb0 : coherent {| d_collar := d_collar b; d_surveys := d_surveys b; d_locs := None; d_data := d_data b |})
       by (left; reflexivity).
     assert (Hs0 : same_inputs a {| d_collar := d_collar b; d_surveys := d_surveys b; d_locs := None; d_data := d_data b |})
       by (destruct Hs as [A [B C]]; repeat split; assumption).
     destruct (dstep_same a _ op Ha Hb0 Hs0) as [Eo Hs1]. unfold dstep_spec in Eb. rewrite Ea, Eb in Eo, Hs1. simpl in Eo, Hs1.
-    assert (Ha1 : coherent a1) by (pose proof (dstep_coherent a op Ha) as X; rewrite Ea in X; exact X).
-    assert (Hb1 : coherent b1) by (pose proof (dstep_coherent _ op Hb0) as X; rewrite Eb in X; exact X).
-    specialize (IH a1 b1 Ha1 Hb1 Hs1).
+    assert (Ha1 : coherent a1) by (pose proof (dstep_coherent a op Hop Ha) as X; rewrite Ea in X; exact X).
+    assert (Hb1 : coherent b1) by (pose proof (dstep_coherent _ op Hop Hb0) as X; rewrite Eb in X; exact X).
+    specialize (IH a1 b1 Hr Ha1 Hb1 Hs1).
     destruct (drun dir a1 r) as [a2 osa]. destruct (drun_spec dir b1 r) as [b2 osb]. simpl in *.
     subst oa. rewrite IH. reflexivity.
   Qed.
 
-  Lemma drun_coherent : forall ops h, coherent h -> coherent (fst (drun dir h ops)).
+  Lemma drun_coherent : forall ops h, Forall d_api ops -> coherent h -> coherent (fst (drun dir h ops)).
   Proof.
-    induction ops as [|op r IH]; intros h H; [exact H|]. simpl.
-    destruct (dstep dir h op) as [h1 o] eqn:E. pose proof (dstep_coherent h op H) as H1. rewrite E in H1. simpl in H1.
-    specialize (IH h1 H1). destruct (drun dir h1 r) as [h2 os]. exact IH.
+    induction ops as [|op r IH]; intros h Hapi H; [exact H|]. inversion Hapi as [|? ? Hop Hr]; subst. simpl.
+    destruct (dstep dir h op) as [h1 o] eqn:E. pose proof (dstep_coherent h op Hop H) as H1. rewrite E in H1. simpl in H1.
+    specialize (IH h1 Hr H1). destruct (drun dir h1 r) as [h2 os]. exact IH.
   Qed.
 
   (* what a query / a call sees after any history: the path of the CURRENT collar and surveys *)
